@@ -54,6 +54,7 @@ func main() {
 		dotu    = flag.Bool("dotu", false, "server speaks 9P2000.u")
 		msize   = flag.Uint("msize", 8192, "server msize")
 		jail    = flag.String("chroot", "", "chroot into this directory before serving")
+		cwd     = flag.String("cwd", "", "working directory (inside the jail) the server runs in; Ufs.Root may be relative to it")
 		auth    = flag.Bool("auth", false, "script: implement AuthOps")
 		flush   = flag.Int("flush", script.FlushAbsent, "script: 0 no FlushOp, 1 cancel, 2 ignore")
 		maxpend = flag.Int("maxpend", 0, "Srv.Maxpend")
@@ -108,6 +109,11 @@ func main() {
 		}
 		if err := os.Chdir("/"); err != nil {
 			die("chdir /: %v", err)
+		}
+	}
+	if *cwd != "" {
+		if err := os.Chdir(*cwd); err != nil {
+			die("chdir %s: %v", *cwd, err)
 		}
 	}
 
